@@ -16,6 +16,7 @@
 import Gzx.Proofs.DetWhiteRect
 import Gzx.Proofs.DetQRDetector
 import Gzx.Proofs.DetDM
+import Gzx.Model.DetAztec
 namespace Gzx.Properties.C06Det
 open Gzx Gzx.Det
 
@@ -252,5 +253,97 @@ theorem dm_detect_never_panics {F : Type} (o : FOps F) (img : Img) :
     (∀ why, DM.detect o img.rdGo img.w img.h ≠ .error (.panic why)) ∧
     DM.detect o img.rdGo img.w img.h ≠ .error .fuel :=
   ⟨(dm_detect_total o img).no_panic onlyNotFound_no_panic, (dm_detect_total o img).no_fuel onlyNotFound_no_fuel⟩
+
+/-! ## aztec/detector (first stage) -/
+
+/-- the model's extra guard `k < stepBound …` in `gfdWalk` never cuts a walk short: for a direction ±1 a
+    valid coordinate after `k` steps implies `k < stepBound` -/
+theorem az_gfd_guard_redundant (n c d k : Int) (hd : d = 1 ∨ d = -1) (h0 : 0 ≤ c + k * d) (h1 : c + k * d < n) :
+    k < AZ.stepBound n c d := by
+  unfold AZ.stepBound
+  rcases hd with rfl | rfl
+  · simp only [if_true]; omega
+  · simp only [show ¬ ((-1 : Int) = 1) by decide, if_false, if_true]; omega
+
+theorem az_gfdWalk_total {rd : Reader} (hrd : Total rd) (w h : Int) (color : Bool) (x0 y0 dx dy L : Int) :
+    Sat NoFault (fun _ => True) (AZ.gfdWalk rd w h color x0 y0 dx dy L) := by
+  unfold AZ.gfdWalk
+  refine sat_bind_true (walk_up_guard_total hrd _ _ _ _ L 0 0 (fun p hp => by
+    simp only [Bool.and_eq_true, decide_eq_true_eq] at hp; exact hp.1)) ?_
+  intro r
+  exact Sat.ok trivial
+
+/-- `getFirstDifferent` from ANY start point (inside or outside the image), any colour, any direction:
+    a point, no fault; each of its three loops ends within the distance to the image edge -/
+theorem az_getFirstDifferent_total (img : Img) (init : Int × Int) (color : Bool) (dx dy : Int) :
+    Sat NoFault (fun _ => True) (AZ.getFirstDifferent img.rdGo img.w img.h init color dx dy) := by
+  unfold AZ.getFirstDifferent
+  simp only []
+  refine sat_bind_true (az_gfdWalk_total (rdGo_ok img) _ _ _ _ _ _ _ _) ?_
+  intro k1
+  refine sat_bind_true (az_gfdWalk_total (rdGo_ok img) _ _ _ _ _ _ _ _) ?_
+  intro k2
+  refine sat_bind_true (az_gfdWalk_total (rdGo_ok img) _ _ _ _ _ _ _ _) ?_
+  intro k3
+  exact Sat.ok trivial
+
+attribute [local irreducible] AZ.getFirstDifferent in
+theorem az_fallback_total (img : Img) (cx cy : Int) :
+    Sat NoFault (fun ps => ps.length = 4) (AZ.fallback img.rdGo img.w img.h cx cy) := by
+  unfold AZ.fallback
+  refine sat_bind_true (az_getFirstDifferent_total img _ _ _ _) ?_
+  intro a
+  refine sat_bind_true (az_getFirstDifferent_total img _ _ _ _) ?_
+  intro b
+  refine sat_bind_true (az_getFirstDifferent_total img _ _ _ _) ?_
+  intro c
+  refine sat_bind_true (az_getFirstDifferent_total img _ _ _ _) ?_
+  intro d
+  exact Sat.ok rfl
+
+attribute [local irreducible] AZ.fallback WRD.detect in
+theorem az_rectOrFallback_total {F : Type} (o : FOps F) (img : Img) (wr : Res WRD.WR)
+    (hwr : Sat OnlyNotFound (fun _ => True) wr) (cx cy : Int) :
+    Sat NoFault (fun ps => ps.length = 4) (AZ.rectOrFallback o img.rdGo img.w img.h wr cx cy) := by
+  unfold AZ.rectOrFallback
+  have hrun : Sat OnlyNotFound (NearImage img) (do let d ← wr; WRD.detect o img.rdGo img.w img.h d) :=
+    Sat.bind hwr (fun d _ => wrd_detect_total o img d)
+  cases hr : (do let d ← wr; WRD.detect o img.rdGo img.w img.h d) with
+  | ok ps => rw [hr] at hrun; exact Sat.ok hrun.1
+  | error e =>
+    rw [hr] at hrun
+    have : e = Fault.notFound := hrun
+    subst this
+    exact az_fallback_total img cx cy
+
+theorem az_centre_total {F : Type} (o : FOps F) (ps : List (Int × Int)) (sel : Int × Int → Int) (h : ps.length = 4) :
+    Sat NoFault (fun _ => True) (AZ.centre o ps sel) := by
+  match ps, h with
+  | [a, b, c, d], _ => exact Sat.ok trivial
+
+/-- **`getMatrixCenter` is total**: both WhiteRectangleDetector runs (any NotFound — constructor or
+    `Detect` — falls back to four `getFirstDifferent` walks from `(cx±7, cy±7)`, which may start outside
+    a small image), the `cornerPoints[0..3]` accesses (always four points) and the float averaging. -/
+theorem az_matrix_center_total {F : Type} (o : FOps F) (img : Img) :
+    Sat NoFault (fun _ => True) (AZ.getMatrixCenter o img.rdGo img.w img.h) := by
+  have hnew : ∀ i x y, Sat OnlyNotFound (fun _ => True) (WRD.new img.w img.h i x y) := by
+    intro i x y
+    rcases wrd_new_total img.w img.h i x y with ⟨d, hd, _⟩ | he
+    · rw [hd]; exact Sat.ok trivial
+    · rw [he]; exact rfl
+  unfold AZ.getMatrixCenter
+  refine Sat.bind (az_rectOrFallback_total o img _ (hnew _ _ _) _ _) ?_
+  intro ps hps
+  refine sat_bind_true (az_centre_total o ps _ hps) ?_
+  intro cx
+  refine sat_bind_true (az_centre_total o ps _ hps) ?_
+  intro cy
+  refine Sat.bind (az_rectOrFallback_total o img _ (hnew _ _ _) _ _) ?_
+  intro ps2 hps2
+  refine sat_bind_true (az_centre_total o ps2 _ hps2) ?_
+  intro cx2
+  refine sat_bind_true (az_centre_total o ps2 _ hps2) ?_
+  intro cy2
+  exact Sat.ok trivial
 
 end Gzx.Properties.C06Det
